@@ -130,6 +130,8 @@ def finding_key(case, res, out, broken):
         mode = "formatter-raises"
     if mode == "run" and case.scenario == "interrupt":
         mode = "body-interrupted"
+    if mode == "run" and case.scenario == "unstageable":
+        mode = "staging-refused"
     if mode == "fault" and D.is_interrupt(res.get("variant")):
         mode = "interrupt"
     at = f"@{out['role']}" if out["role"] else ""
@@ -153,6 +155,9 @@ def finding_key(case, res, out, broken):
             parts.append(f"dest={out['dest']}")
     if "tmp" in broken:
         parts.append("tmp-left")
+    if case.nameclass != "ordinary":
+        # the class of the destination file name is part of the case's structure
+        return f"{kgroup(case)}:name={case.nameclass}:{mode}{at}:" + "+".join(parts)
     if case.target == "zip":
         # zip targets are not transcribed call by call: the key names the mode only
         return f"{kgroup(case)}:zip:{mode}:" + "+".join(parts)
@@ -187,7 +192,12 @@ def check_writes(run: Run, scratch: Path, model, table):
             n = len(r["events"])
             for k in range(1, n + 1):
                 jobs.append((r["case"], r["pre"], k, "kill", str(work)))
+                if r["case"].scenario == "unstageable":
+                    continue  # the open of the staged file fails by itself: kills only, no second (injected) fault
                 variants = D.fault_variants(r["events"][k - 1]["role"])
+                if r["case"].light:
+                    jobs.append((r["case"], r["pre"], k, "fault", str(work), variants[0]))
+                    continue
                 if run.tier == "quick" and r["case"].target == "zip":
                     # quick: zip targets with one one-shot and one persistent variant per boundary, no second-level kills
                     variants = [variants[0], variants[-1]]
@@ -202,6 +212,8 @@ def check_writes(run: Run, scratch: Path, model, table):
         # the faulted run makes after the fault (handler / fallback / retry calls)
         jobs2 = []
         for r in first:
+            if r["case"].light:
+                continue
             if run.tier == "quick" and (r["case"].target == "zip" or (r["variant"] or "").split(":")[0] in ("EACCES", "ENOENT")):
                 continue  # quick: second-level kills after EIO / ENOSPC faults of the plain targets only
             if r["mode"] == "fault" and r["variant"].endswith(":once") and r["status"] == "exited" and not D.is_interrupt(r["variant"]):
@@ -346,7 +358,9 @@ def check(run: Run):
         "that run (the process dies while the fault is handled).  Interrupt(c) of the spec (a BaseException that is not an Exception) "
         "is instantiated at every boundary by a real SIGINT (KeyboardInterrupt) and by SystemExit, and BodyInterrupted by content whose "
         "production is interrupted inside the with-block (formatter iteration, column formatting callback, tree rendering, to_json); one evaluation = one child process judged by "
-        "OutcomeOK of AtomicWrite.tla; distinct non-trivial = distinct (case, destination state, boundary index, mode, fault variant) whose "
+        "OutcomeOK of AtomicWrite.tla.  The destination file name is a dimension (NameClasses of the spec: blanks, quotes, brackets/glob, "
+        "punctuation, unicode, leading digit, digits only, many dots, long, and a legal name whose staged name is unusable so that the open of "
+        "the staged file fails by itself), driven with kills and one fault variant per boundary; distinct non-trivial = distinct (case, destination state, boundary index, mode, fault variant) whose "
         "child logged the injection at that boundary (dry runs are not counted).  resume clause: every prefix of an apply_to run x {KeyboardInterrupt at the k-th "
         "data_store.write, hard kill at every file-system boundary of the run} then re-run in append mode, on two store kinds "
         "(DataStoreDirectory + write_seqs: both interrupt kinds; DataStoreSqlite + write_db: KeyboardInterrupt only) with failing-input sets "
